@@ -243,7 +243,7 @@ def part_uri(ctx, res):
     extra = []
     rng = ctx.rng
     alpha = ["a", "0", "_", ".", "#", " ", "\n", "A", "é", "٣", "z", "9", "-", "@", "x", "e", "t", "h", "F", "\t", " ", "\U0001f600", "１"]
-    for _ in range(3000 if ctx.tier == "quick" else 60000):
+    for _ in range(3000 if ctx.tier == "quick" else 120000):
         n = rng.choice([4, 5, 6, 8, 12, 20, 43])
         extra.append("".join(rng.choice(alpha) for _ in range(n)))
     extra += ["x_", "x_a", "x_ab", "x_ab\n", "x_a٣", "x_abc_9", "realm1", "ab", "abc", "a" * 255, "a" * 256, "a" * 254 + "\n",
@@ -509,3 +509,17 @@ def run(ctx):
     res.traces_validated = res.evaluations
     res.notes.append("URI alphabet strings are enumerated exhaustively up to the stated length for every flag triple")
     return res
+
+
+SELFTEST = """
+Mutation self-test (scratch copy of /repo/src via VERIF_REPO, quick tier, 2026-09; exit code, first replay keys):
+
+ M2  Cancel.MESSAGE_TYPE 49 -> 51                                  rc=1  type-code:Cancel (accepted message judged against the protocol's code table)
+ M3  check_or_raise_id bound 2^53 -> 2^63                          rc=1  id-range-unchecked:Published.request, ... (27 new keys)
+ M4  Publish.parse: drop the `acknowledge` bool check              rc=1  AssertionError:Publish.parse:acknowledge
+ M5  Subscribe.parse: len(wmsg) != 4 -> != 5                       rc=1  reparse-raises:ProtocolError:Subscribe, + correspondence break, + schema_lengths no longer proves
+ M6  JSON batch split [:-1] -> [1:]                                rc=1  correspondence break on the chunking (concrete payload in the replay)
+ M8  CBOR batch length prefix read little-endian                   rc=1  correspondence break on the chunking (concrete payload in the replay)
+ M9  _URI_PAT_LOOSE_NON_EMPTY loses '#' from its class             rc=1  uri-grammar:Error.error, uri-grammar:Call.procedure, ... (12 keys) + uriClass_loose_ok no longer proves
+ H1  harmless: GOODBYE option blocks swapped, local renamed, f-string -> format   rc=0 (silent)
+"""
